@@ -81,7 +81,15 @@ def bulk_functions(repo):
   if not need <= cols:
     raise AnalysisError('InstallBulkFunctionsOfStandardSQL reads columns %s; '
                         'the mirrored derivation expects %s' % (sorted(cols), sorted(need)))
+  from .pathrules import FnView
+  iv = FnView(repo, 'expr_translate.QL.InstallBulkFunctionsOfStandardSQL')
   src = norm(inst.node, 100000)
+  for n_, c in iv.all_calls():                          # helpers (CamelCase) included
+    for t in repo.resolve(inst, c):
+      try:
+        src += ' ' + norm(repo.func(t).node, 100000)
+      except AnalysisError:
+        pass
   for frag in ("== '$'", "replace('.', '_')", "split('_')", "float('inf')"):
     if frag not in src:
       raise AnalysisError('InstallBulkFunctionsOfStandardSQL changed (no %s): '
